@@ -216,11 +216,17 @@ pub fn gen_tree(rng: &mut Rng, sink: &mut Sink, vocab: &Vocab) -> (GTree, Domain
             sink.stat("gen.pi-target-in-namespace");
         }
     }
-    if rng.chance(1, 30) {
+    if rng.chance(1, 15) {
         // a second prefix bound to the XML namespace next to an xml:lang attribute
         if let Some(k) = t.kids.iter_mut().find(|k| matches!(k.v, GValue::Element(_))) {
-            k.kids.retain(|x| !matches!(x.v, GValue::Namespace(2, _) | GValue::Attribute(15, _)));
-            k.kids.insert(0, GTree::leaf(GValue::Namespace(2, 1)));
+            // ... or the legal explicit declaration xmlns:xml="http://www.w3.org/XML/1998/namespace" (prefix 1):
+            // a namespace node with its own event that is rendered as the empty token (seed C16k)
+            let pfx = if rng.chance(1, 2) { 1usize } else { 2 };
+            k.kids.retain(|x| !matches!(x.v, GValue::Namespace(q, _) if q == pfx) && !matches!(x.v, GValue::Attribute(15, _)));
+            k.kids.insert(0, GTree::leaf(GValue::Namespace(pfx, 1)));
+            if pfx == 1 {
+                sink.stat("gen.xml-prefix-declared-explicitly");
+            }
             let at = k.kids.iter().position(|x| !matches!(x.v, GValue::Namespace(..))).unwrap_or(k.kids.len());
             k.kids.insert(at, GTree::leaf(GValue::Attribute(15, "en".to_string())));
             representable = false;
